@@ -102,13 +102,22 @@ struct h4v_ghost {
                   (r)->buf_pos == (r)->buf_length && (r)->last_byte == (r)->buffer[(r)->buf_length - 1] && \
                   ((r)->buf_length >= 2 ? (r)->second_byte == (r)->buffer[(r)->buf_length - 2]       \
                                         : (r)->second_byte != (r)->last_byte)))
-/* ghost element: stream position g_k is represented correctly (emitted, or pending in the state) */
+/* ghost element: stream position g_k is represented correctly (emitted, or pending in the state)
+   (-DRLE_NO_GHOST switches the ghost-element clauses off: quick state-invariant/bounds/accounting runs) */
+#ifdef RLE_NO_GHOST
+#define ENC_CODED(r) 1
+#define DEC_CODED(r) 1
+#define DEC_DELIVERED(lo, hi, p) 1
+#else
+#define DEC_DELIVERED(lo, hi, p) (!(g_k >= (lo) && g_k < (hi)) || (g_have == 1 && (p)[g_k - (lo)] == g_dexp))
 #define ENC_CODED(r)                                                                                 \
     (g_k < g_emit ? (g_got == 1 && g_val == g_exp)                                                   \
                   : (g_k < g_emit + PENDING(r)                                                       \
                          ? ((r)->rle_state == RLE_RUN ? (r)->last_byte == g_exp                      \
                                                       : (r)->buffer[g_k - g_emit] == g_exp)          \
                          : 1))
+
+#endif
 
 /* decoder side */
 #define DEC_WF(r)                                                                                    \
@@ -118,6 +127,7 @@ struct h4v_ghost {
                ? ((r)->buf_length >= 1 && (r)->buf_length <= 130 && (r)->last_byte <= 255)           \
                : ((r)->rle_state == RLE_MIX && (r)->buf_length >= 1 && (r)->buf_pos >= 0 &&          \
                   (r)->buf_pos <= 128 - (r)->buf_length))
+#ifndef RLE_NO_GHOST
 #define DEC_CODED(r)                                                                                 \
     (g_k >= g_dpos ? 1                                                                               \
                    : (g_have == 1 &&                                                                 \
@@ -126,6 +136,7 @@ struct h4v_ghost {
                            : ((r)->rle_state == RLE_RUN                                              \
                                   ? (r)->last_byte == g_dexp                                         \
                                   : (r)->buffer[(r)->buf_pos + (g_k - (g_dpos - PENDING(r)))] == g_dexp))))
+#endif
 
 /* ---- ghost-element models of the bulk copies (only with -DRLE_GHOST_COPY: the unbounded
    HCIcrle_decode proof).  cbmc's own memcpy/memset models with a symbolic length did not get
@@ -499,8 +510,7 @@ static int32 HCIcrle_decode(compinfo_t *info, int32 length, uint8 *buf)
     __CPROVER_ensures(__CPROVER_return_value == SUCCEED ==> g_dpos - PENDING(RI(info)) == RF(info, offset))
     __CPROVER_ensures(__CPROVER_return_value == SUCCEED ==> DEC_CODED(RI(info)))
     /* the byte delivered for stream position g_k is what the fetched packets decode to there */
-    __CPROVER_ensures((__CPROVER_return_value == SUCCEED && g_k >= __CPROVER_old(RF(info, offset)) && g_k < RF(info, offset)) ==>
-                      (g_have == 1 && buf[g_k - __CPROVER_old(RF(info, offset))] == g_dexp));
+    __CPROVER_ensures(__CPROVER_return_value == SUCCEED ==> DEC_DELIVERED(__CPROVER_old(RF(info, offset)), RF(info, offset), buf));
 
 static int32 HCIcrle_init(accrec_t *access_rec)
     __CPROVER_requires(access_rec != NULL && access_rec->special_info != NULL)
